@@ -171,6 +171,70 @@ func init() {
 		}
 		emit("(* client_120.go SendWithSMTPClient: the loop ranges over messages and stores the error at messages[id] *)\nDefinition send_loop_indexes_batch : bool := %v.\n", loopOK)
 
+		// the guard of every ESMTP parameter in smtp.Client.Mail / Rcpt: (string literal that carries the parameter,
+		// "<lookup>; <condition>") - a parameter may depend on the extension lookup (and the configured DSN option) only
+		var guards []string
+		for _, fnName := range []string{"Client.Mail", "Client.Rcpt"} {
+			fn, ok := sp.funcs[fnName]
+			if !ok || fn.Body == nil {
+				untranslatable = append(untranslatable, "param_guards:"+fnName)
+				continue
+			}
+			var assigns []*ast.AssignStmt
+			ast.Inspect(fn.Body, func(x ast.Node) bool {
+				if as, ok := x.(*ast.AssignStmt); ok {
+					for _, l := range as.Lhs {
+						if id, ok := l.(*ast.Ident); ok && id.Name == "ok" {
+							assigns = append(assigns, as)
+						}
+					}
+				}
+				return true
+			})
+			ast.Inspect(fn.Body, func(x ast.Node) bool {
+				is, ok := x.(*ast.IfStmt)
+				if !ok {
+					return true
+				}
+				var lits []string
+				ast.Inspect(is.Body, func(y ast.Node) bool {
+					if _, nested := y.(*ast.IfStmt); nested {
+						return false
+					}
+					if bl, ok := y.(*ast.BasicLit); ok && bl.Kind == token.STRING {
+						if v, err := strconv.Unquote(bl.Value); err == nil {
+							for _, mk := range []string{"BODY=", "SMTPUTF8", "RET=", "NOTIFY="} {
+								if strings.Contains(v, mk) {
+									lits = append(lits, v)
+									break
+								}
+							}
+						}
+					}
+					return true
+				})
+				for _, lit := range lits {
+					g := sp.src(is.Cond)
+					if is.Init != nil {
+						g = sp.src(is.Init) + "; " + g
+					} else {
+						var last *ast.AssignStmt
+						for _, as := range assigns {
+							if as.Pos() < is.Pos() && (is.Init == nil || as != is.Init) {
+								last = as
+							}
+						}
+						if last != nil {
+							g = sp.src(last) + "; " + g
+						}
+					}
+					guards = append(guards, "("+coqBytes(lit)+", "+coqBytes(g)+") (* "+strings.ReplaceAll(strings.ReplaceAll(lit+" <- "+g, "(*", "( *"), "*)", "* )")+" *)")
+				}
+				return true
+			})
+		}
+		emit("(* smtp.go Mail / Rcpt: every ESMTP parameter with its guard *)\nDefinition param_guards : list (list N * list N) :=\n  [%s\n  ].\n", strings.Join(guards, ";\n   "))
+
 		// dataCloser.Close reads the reply to the end of the mail data with ReadResponse (all lines of a multi-line
 		// reply), not with ReadCodeLine (first line only: the rest would be taken for the next command's reply)
 		full := false
